@@ -76,6 +76,8 @@ type State struct {
 	deferStack []*deferRec
 	dargs      map[*deferRec]*callArgs
 	decrVals   map[string]Term
+	pointeeLoop bool                // a loop on this path wrote objects through pointers of unknown type
+	pointees   []Term               // objects written through pointers of unknown type (pointee(p) modifies targets)
 	names      map[string]ssa.Value // "<fn>|<source name>" -> value last referenced under that name on this path
 	retSite    ssa.Instruction
 	callRes    map[string][]Term // results of calls on this path, by site name ("call.Recv#1")
@@ -101,7 +103,7 @@ type arrInfo struct {
 
 func (st *State) clone() *State {
 	n := &State{fx: st.fx, alloc: st.alloc, dead: st.dead, entryHeap: st.entryHeap, callDepth: st.callDepth,
-		deferStack: st.deferStack, dargs: st.dargs, decrVals: st.decrVals, names: st.names, retSite: st.retSite, callRes: st.callRes, lockSnap: st.lockSnap, lastLock: st.lastLock, unlockSnap: st.unlockSnap, loopFrames: st.loopFrames, joins: st.joins}
+		deferStack: st.deferStack, dargs: st.dargs, decrVals: st.decrVals, names: st.names, pointees: st.pointees, pointeeLoop: st.pointeeLoop, retSite: st.retSite, callRes: st.callRes, lockSnap: st.lockSnap, lastLock: st.lastLock, unlockSnap: st.unlockSnap, loopFrames: st.loopFrames, joins: st.joins}
 	n.vals = make(map[ssa.Value]Term, len(st.vals))
 	for k, v := range st.vals {
 		n.vals[k] = v
@@ -189,8 +191,12 @@ func (fx *FnExec) heapWF(name, srt, arr, bound string) Term {
 	// iteration) puts there: those are bounded by epoch(w), the watermark when
 	// w's allocating step finished (see bumpAlloc).
 	bnd := func(kind, v string) string {
+		// (a negative reference -(b*1024+k) is the address of field k of object b)
+		in := func(x, b string) string {
+			return "(and (<= " + x + " " + b + ") (> " + x + " (- (* (+ " + b + " 1) 1024))))"
+		}
 		le := func(x string) string {
-			return "(or (<= " + x + " " + bound + ") (<= " + x + " (epoch q.w)))"
+			return "(or " + in(x, bound) + " " + in(x, "(epoch q.w)") + ")"
 		}
 		switch kind {
 		case "ref":
@@ -234,7 +240,40 @@ func (st *State) heapGet(name, srt string) Term {
 	}
 	t := st.heapInit(name, srt)
 	st.heap[name] = t
-	return t
+	// objects written through pointers of unknown type before this heap
+	// variable was first touched
+	if st.pointeeLoop && realRefHeap(name, srt) {
+		// a loop already passed may have written pre-existing objects here
+		nv := st.fx.freshConst(name+"@ploop", srt)
+		e := st.fx.entryAlloc
+		st.assume(fmt.Sprintf("(forall ((q.r Int)) (! (=> (or (> q.r %s) (<= q.r (- (* (+ %s 1) 1024)))) (= (select %s q.r) (select %s q.r))) :pattern ((select %s q.r))))", e, e, nv, t, nv))
+		st.heap[name] = nv
+		// every such write was shown to stay inside the function's frame
+		// (obligation pointee-in-frame), so this variable kept its frame too
+		if fal := st.fx.topFrameAllowed(st); fal != nil {
+			if post, ok := st.fx.frameFormula(st, name, nv, fal, st.entryHeap, e); ok {
+				st.assume(post)
+			}
+		}
+	}
+	for _, idx := range st.pointees {
+		st.havocAt(name, idx)
+	}
+	return st.heap[name]
+}
+
+// havocAt gives location idx of a (real, reference-indexed) heap variable an
+// arbitrary value.
+func (st *State) havocAt(name string, idx Term) {
+	if strings.HasPrefix(name, "ghost.") || strings.HasPrefix(name, "gv.") {
+		return
+	}
+	srt := st.fx.heapSorts[name]
+	if !strings.HasPrefix(srt, "(Array Int ") {
+		return
+	}
+	es := arrayElemSort(srt)
+	st.heap[name] = "(store " + st.heap[name] + " " + idx + " " + st.fx.freshConst("mod.pointee", es) + ")"
 }
 
 func (st *State) heapSet(name, srt string, t Term) {
